@@ -216,7 +216,7 @@ pub fn scenario(family: &str, seed: u64) -> Scenario {
             sc.deadline_us = 60_000_000;
         }
         // handshake under loss / duplication / one-way blackholes, unroutable datagrams, early close
-        "handshake" => {
+        "handshake" | "late_retry" => {
             for _ in 0..rng.random_range(0..3) {
                 let dir = if rng.random_bool(0.5) { "c2s" } else { "s2c" };
                 let act = pick(rng, &["drop", "drop", "dup", "hold"]);
@@ -245,7 +245,15 @@ pub fn scenario(family: &str, seed: u64) -> Scenario {
                 sc.close_at_us = pick(rng, &[1_000u64, 30_000, 70_000, 150_000]);
             }
             sc.deadline_us = 40_000_000;
-            sc.retry = rng.random_bool(0.4);
+            sc.retry = rng.random_bool(0.4) || family == "late_retry";
+            if sc.retry && (rng.random_bool(0.5) || family == "late_retry") {
+                // the first Retry packets are lost: the client's probe timeout re-sends its Initial, so the Retry that finally
+                // arrives finds several Initial packets outstanding (all of them are discarded by it)
+                net.blackhole.clear();
+                net.schedule.clear();
+                net.blackhole.push(("s2c".into(), 0, pick(rng, &[500_000u64, 1_200_000, 3_200_000])));
+                sc.close_at_us = 0;
+            }
         }
         // long-lived connection: connection id expiry/rotation, NAT rebinding and migration of the client, small
         // active_connection_id_limit values, loss of NEW_CONNECTION_ID / RETIRE_CONNECTION_ID frames
@@ -458,7 +466,7 @@ pub fn scenario(family: &str, seed: u64) -> Scenario {
             sc.deadline_us = 200_000_000;
         }
         // an otherwise honest connection in which the victim receives one protocol-violating frame
-        "violation" => {
+        "violation" | "ack_unsent" => {
             let n = rng.random_range(2..5);
             sc.streams = streams(rng, n, 30_000);
             // make sure every stream kind exists in both directions
@@ -470,7 +478,7 @@ pub fn scenario(family: &str, seed: u64) -> Scenario {
             let kinds = ["stream_beyond_sd", "stream_beyond_max_streams", "reset_final_shrink", "data_after_fin", "local_unopened", "send_only_stream",
                          "max_stream_data_recv_only", "stop_sending_recv_only", "max_streams_huge", "new_cid_bad_rpt", "handshake_done", "conn_data_beyond", "stream_in_handshake", "app_close_in_handshake",
                          "reset_beyond_sd", "fin_below_received"];
-            let kind = kinds[(seed % kinds.len() as u64) as usize];
+            let kind = if family == "ack_unsent" { "ack_next_unsent" } else { kinds[(seed % kinds.len() as u64) as usize] };
             if kind == "conn_data_beyond" {
                 let l = if victim == "c" { &mut sc.c } else { &mut sc.s };
                 l.data_window = 4000;
